@@ -235,14 +235,8 @@ func (ssf *serverSessionFormat) remoteSSRC() (uint32, bool) {
 }
 
 func (ssf *serverSessionFormat) readPacketRTP(payload []byte, header *rtp.Header, headerSize int, now time.Time) bool {
-	if !ssf.remoteSSRCFilled {
-		ssf.remoteSSRCMutex.Lock()
-		ssf.remoteSSRCFilled = true
-		ssf.remoteSSRCValue = header.SSRC
-		ssf.remoteSSRCMutex.Unlock()
-
-		// a wrong SSRC is an issue only when encryption is enabled, since it spams srtp.Context.DecryptRTP.
-	} else if ssf.ssm.srtpInCtx != nil &&
+	// a wrong SSRC is an issue only when encryption is enabled, since it spams srtp.Context.DecryptRTP.
+	if ssf.remoteSSRCFilled && ssf.ssm.srtpInCtx != nil &&
 		header.SSRC != ssf.remoteSSRCValue {
 		ssf.ssm.onPacketRTPDecodeError(fmt.Errorf("received packet with wrong SSRC %d, expected %d",
 			header.SSRC, ssf.remoteSSRCValue))
@@ -253,6 +247,14 @@ func (ssf *serverSessionFormat) readPacketRTP(payload []byte, header *rtp.Header
 	if err != nil {
 		ssf.ssm.onPacketRTPDecodeError(err)
 		return false
+	}
+
+	// store the remote SSRC only once a packet has been decoded (and authenticated, when encryption is enabled)
+	if !ssf.remoteSSRCFilled {
+		ssf.remoteSSRCMutex.Lock()
+		ssf.remoteSSRCFilled = true
+		ssf.remoteSSRCValue = header.SSRC
+		ssf.remoteSSRCMutex.Unlock()
 	}
 
 	pkts, lost := ssf.rtpReceiver.ProcessPacket2(pkt, now, ssf.format.PTSEqualsDTS(pkt))
